@@ -80,6 +80,32 @@ func (w *hdrWorld) tryCandidate(prevHash chainhash.Hash, prev *refpow.Index, pre
 	if got := node.WorkSum(); got.Cmp(sum) != 0 || got.Cmp(prevWork) <= 0 {
 		return true, "workSum", fmt.Sprintf("accepted header at height %d bits %#08x: cumulative work %s, parent %s, reference %s", prev.Height+1, cand.Bits, got.Text(16), prevWork.Text(16), sum.Text(16))
 	}
+	// The bound ProcessBlock applies to blocks that follow a checkpoint must
+	// never exclude a difficulty the protocol itself requires.  This header was
+	// accepted, so the chain up to it is valid: whichever of its ancestors is
+	// taken as the checkpoint, calcEasiestDifficulty(ancestor bits, elapsed
+	// time) has to be at least as easy as this header's bits (a necessary
+	// condition; a node with that checkpoint would otherwise refuse a valid
+	// chain).  Checked for the three nearest ancestors.
+	// (Not demanded on minimum-difficulty networks, where the 20-minute rule
+	// looks at the parent's timestamp while the bound measures time from the
+	// checkpoint, nor for headers stamped at or before the ancestor's time.)
+	if ct := compactTarget(cand.Bits); ct != nil && !w.rp.AllowMinDifficulty {
+		for a, k := prev, 0; a != nil && k < 3; a, k = a.Prev, k+1 {
+			d := cand.Time - a.Time
+			if d <= 0 {
+				continue
+			}
+			var eb uint32
+			if pn := safe(func() { eb = w.ch.BC.VerifC09EasiestDifficulty(a.Bits, d) }); pn != nil {
+				return true, "EasiestDifficulty/panic", fmt.Sprintf("calcEasiestDifficulty panicked: %v", pn)
+			}
+			if et := compactTarget(eb); et == nil || et.Cmp(ct) < 0 {
+				return true, "EasiestDifficulty", fmt.Sprintf("calcEasiestDifficulty(bits %#08x of the block at height %d, %d s) = %#08x is harder than the bits %#08x of the valid header at height %d, %d s later: a node with a checkpoint at that block refuses this header",
+					a.Bits, a.Height, d, eb, cand.Bits, prev.Height+1, d)
+			}
+		}
+	}
 	return true, "", ""
 }
 
